@@ -110,6 +110,8 @@ def _arg_for(p, variant):
         return "x"
     if variant == 2:
         return 1
+    if variant == 3:
+        return "1234"
     if "Optional" in str(ann) or "None" in str(ann):
         return None
     if anns in ("str",) or "str" in anns:
@@ -126,6 +128,18 @@ def _arg_for(p, variant):
 
 
 def try_instantiate(cls):
+    """-> (obj, None) or (None, reason).  No thread may start inside a constructor (Bristol_871A starts its
+    reader thread there when given a serial transport)."""
+    import threading
+    orig = threading.Thread.start
+    threading.Thread.start = lambda self: None
+    try:
+        return _try_instantiate(cls)
+    finally:
+        threading.Thread.start = orig
+
+
+def _try_instantiate(cls):
     """-> (obj, None) or (None, reason).  Stub context, synthesized constructor arguments."""
     rpc = _rpc()[0]
     if cls.__module__ == "qmi.core.task" and cls.__name__ == "QMI_TaskRunner":
@@ -143,35 +157,39 @@ def try_instantiate(cls):
     except (TypeError, ValueError) as e:
         return None, "no signature: %s" % e
     params = list(sig.parameters.values())[1:]
-    last = None
-    for variant in (0, 1, 2):
-        args, kwargs = [], {}
-        ok = True
-        for i, p in enumerate(params):
-            if p.kind in (p.VAR_POSITIONAL, p.VAR_KEYWORD):
-                continue
-            if i == 0:
-                v = StubCtx()
-            elif i == 1:
-                v = "obj"
-            elif p.default is not p.empty:
-                continue
-            else:
-                v = _arg_for(p, variant)
-            if p.kind == p.KEYWORD_ONLY:
-                kwargs[p.name] = v
-            else:
-                args.append(v)
-        if not ok:
-            continue
-        try:
-            obj = cls(*args, **kwargs)
-            if not isinstance(obj, rpc.QMI_RpcObject):
-                return None, "constructor returned %r" % type(obj)
-            return obj, None
-        except BaseException as e:  # noqa
-            last = "%s: %s" % (type(e).__name__, str(e)[:100])
-    return None, last
+    errors = []
+    for transport in ("tcp:localhost:5000", "serial:/dev/ttyS0", "udp:localhost:5000"):
+        for variant in (0, 1, 2, 3):
+            args, kwargs = [], {}
+            for i, p in enumerate(params):
+                if p.kind in (p.VAR_POSITIONAL, p.VAR_KEYWORD):
+                    continue
+                if i == 0:
+                    v = StubCtx()
+                elif i == 1:
+                    v = "obj"
+                elif p.default is not p.empty and not (variant == 3 and p.default is None):
+                    continue
+                elif "transport" in p.name.lower():
+                    v = transport
+                else:
+                    v = _arg_for(p, variant)
+                if p.kind == p.KEYWORD_ONLY:
+                    kwargs[p.name] = v
+                else:
+                    args.append(v)
+            try:
+                obj = cls(*args, **kwargs)
+                if not isinstance(obj, rpc.QMI_RpcObject):
+                    return None, "constructor returned %r" % type(obj)
+                return obj, None
+            except BaseException as e:  # noqa
+                msg = "%s: %s" % (type(e).__name__, str(e)[:100])
+                if msg not in errors:
+                    errors.append(msg)
+        if not any("transport" in p.name.lower() for p in params):
+            break
+    return None, " | ".join(errors[:3])
 
 
 # ---------------------------------------------------------------------------------------------
@@ -286,8 +304,9 @@ def make_stub(name, is_marked):
     return stub
 
 
-def shield(obj, names):
-    """replace every callable attribute by a recording stub carrying the same marker"""
+def shield(obj, names, keep_module=None):
+    """replace every callable attribute by a recording stub carrying the same marker (attributes defined in
+    `keep_module` — the generated module, whose bodies only log — are left alone)"""
     n = 0
     for nm in names:
         try:
@@ -299,6 +318,15 @@ def shield(obj, names):
         st = inspect.getattr_static(type(obj), nm, None)
         if isinstance(st, T.DATA_DESCR):
             continue
+        if keep_module is not None:
+            f = st.__func__ if isinstance(st, (staticmethod, classmethod)) else st
+            if isinstance(f, functools.partial):
+                f = f.func
+            m = getattr(f, "__module__", None)
+            if not isinstance(f, (types.FunctionType, type)):
+                m = type(f).__module__ if m is None or not isinstance(m, str) else m
+            if m == keep_module:
+                continue
         try:
             obj.__dict__[nm] = make_stub(nm, bool(getattr(v, "_rpc_method", False)))
             n += 1
@@ -463,11 +491,16 @@ def check_class(ck, tab, cache, origin, rng, demand_equal, collect):
             fw = proxy_forwarders(proxy)
             intact = proxy_intact(proxy)
             kproxy = "(Some (%s, %s))" % (T.coq_names(sorted(fw)), cbool(intact))
-            if not intact:
+            over = [p for p in PROTECTED if p in vars(proxy)]
+            if [p for p in over if p in fw]:
                 ck.report("proxy-lock-control-overwritten:%s" % key_cls,
-                          "a proxy built from the descriptor of %s no longer has its own lock/unlock/force_unlock/"
-                          "is_locked (overwritten by %r)" % (fq, [p for p in PROTECTED if p in vars(proxy)]),
+                          "a proxy built from the descriptor of %s has its own lock control %r replaced by forwarding "
+                          "RPC methods" % (fq, [p for p in over if p in fw]),
                           rep({"proxy_attrs": sorted(vars(proxy))[:80]}))
+            elif over:
+                # a constant or a signal carrying a protected name: not an RPC method, outside the statement of
+                # C05 (class_ok excludes it for every shipped class); compared with the model, and counted
+                ck.count("proxy:lock-control-shadowed-by-constant-or-signal")
             if demand_equal and set(fw) != set(methods):
                 ck.report("proxy-methods-differ:%s" % key_cls,
                           "the proxy of %s forwards %r but the descriptor advertises %r"
@@ -496,6 +529,7 @@ def check_class(ck, tab, cache, origin, rng, demand_equal, collect):
         accepted = []
         for nm in names:
             kind, det, ran = route_a(th, nm, watch)
+            ran_f = [x for x in ran if not x.endswith(".__getattr__")]
             k = T.resolve(tab, cache, nm)
             is_prop = k is not None and k[0] in ("KProperty", "KOther")
             ck.count("verdict:" + (kind if kind != "unknown" else "unknown-%s" % {1: "noattr", 2: "notmarked"}.get(det, "?")))
@@ -521,20 +555,21 @@ def check_class(ck, tab, cache, origin, rng, demand_equal, collect):
                 code = 4 if is_prop else det
             else:
                 code = 4 if is_prop else 9
-                ck.report("wrong-error:%s:%s" % (key_cls, _nk(nm, k, origin)),
+                where = (ran_f[0] if ran_f else "%s.%s" % (short, nm)) if origin == "shipped" else "generated"
+                ck.report("wrong-error:%s:%s" % (where, det),
                           "request naming %r on %s is answered with %s instead of the unknown-RPC error%s"
-                          % (nm, fq, det, " (its property getter ran: %r)" % ran if ran else ""),
-                          rep({"name": nm, "route": "A", "error": det, "executed": ran}))
-            if ran and not (kind == "other"):
-                ck.report("executes:%s:%s" % (key_cls, _nk(nm, k, origin)),
-                          "request naming %r on %s runs code of the object before the marker check: %r "
-                          "(hasattr/getattr evaluate the property getter)" % (nm, fq, ran),
-                          rep({"name": nm, "route": "A", "executed": ran}))
+                          % (nm, fq, det, " (hasattr() ran the property getter %s, which raised)" % ran_f[0] if ran_f else ""),
+                          rep({"name": nm, "route": "A", "error": det, "executed": ran_f}))
+            if ran_f and kind != "other":
+                ck.report("getter-runs:%s" % (ran_f[0] if origin == "shipped" else "generated"),
+                          "request naming %r on %s runs code of the object although the name is not RPC-callable: "
+                          "hasattr()/getattr() in _check_and_get_method evaluate the property getter %s"
+                          % (nm, fq, ran_f[0]), rep({"name": nm, "route": "A", "executed": ran_f}))
             probes.append((nm, code))
         for ns in NONSTRING:
             kind, det, ran = route_a(th, ns, watch)
             ck.count("nonstring-name:" + kind)
-            if kind == "accept" or ran:
+            if kind == "accept" or [x for x in ran if not x.endswith(".__getattr__")]:
                 ck.report("nonstring-accepted:%s" % key_cls, "request naming %r on %s: %s %r" % (ns, fq, kind, ran),
                           rep({"name": repr(ns)}))
         # advertised == accepted
@@ -547,8 +582,7 @@ def check_class(ck, tab, cache, origin, rng, demand_equal, collect):
         meta["accepted"] = sorted(accepted)
         # ---- route B --------------------------------------------------------------------------
         acc = set(accepted)
-        if origin == "shipped":
-            shield(obj, names)
+        shield(obj, names, None if origin == "shipped" else cls.__module__)
         glog = collect.get("gen_log")
         for nm in names:
             del CALLS[:]
@@ -560,7 +594,7 @@ def check_class(ck, tab, cache, origin, rng, demand_equal, collect):
             is_getter_only = bool(ran) and not executed and k is not None and k[0] in ("KProperty", "KOther")
             if nm in acc:
                 good = kind in ("value",) and len(executed) == 1 and executed[0][0] == nm
-                if origin == "shipped":
+                if origin == "shipped" or (CALLS and good):
                     good = good and det == ("stub", nm) and executed[0][1] == (41,) and executed[0][2] == {"kw": 1}
                 if not good:
                     ck.report("handler-accept:%s" % key_cls,
